@@ -1,0 +1,15 @@
+//go:build verif
+
+// Contracts for package internal, read by /verif's goatvc (comment-only; no executable code).
+package internal
+
+//@ func internal.ToMetadata
+//@   nopanic[C04.nopanic C12.nopanic C13.nopanic]
+//@   requires[C04.no_nil_elements] forall j Int :: 0 <= j && j < len(kvs) ==> kvs[j] != nil
+//@   modifies
+//@   ensures[C04.md_or_error] (result.1 == nil) != (result.0 == nil)
+
+//@ func internal.ToKeyValue
+//@   nopanic[C04.nopanic C12.nopanic]
+//@   modifies
+//@   ensures[C04.kv_nonnil] result != nil && (forall j Int :: 0 <= j && j < len(result) ==> result[j] != nil)
